@@ -27,7 +27,7 @@ PATTERNS = ["none", "first", "last", "interior", "random20", "random50", "allbut
 
 def cases(tier, seed):
     rnd = random.Random(16000 + seed)
-    reps = 1 if tier == "quick" else 10
+    reps = 1 if tier == "quick" else 40
     orders = [["mask"], ["fill"], ["mask", "fill"], ["fill", "mask"], ["mask", "fill", "mask"], ["fill", "mask", "fill"]]
     for _ in range(reps):
         for pat, model, fpv in itertools.product(PATTERNS, ["single", "batch", "mt"], [False, True]):
